@@ -2,12 +2,14 @@ package zzharness
 
 import (
 	"context"
+	"errors"
 	"fmt"
 	"os"
 	"path/filepath"
 	"strconv"
 	"strings"
 	"sync"
+	"syscall"
 	"time"
 
 	"go.uber.org/zap"
@@ -100,6 +102,12 @@ func (w *wlock) Drive(s *simrt.Sched, out *RunResult) {
 			simos.SetForeignLive(777, false)
 		})
 	}
+	// in a quarter of the runs the PID write of one acquisition hits a full disk (short write)
+	if c.Choose(4, "pid-write-fault") == 3 {
+		simos.Plan = &simos.FaultPlan{Budget: 1, PerMille: 1000, Kinds: map[string]bool{"short-write": true},
+			Filter: func(op, path string) bool { return op == "write" && path == lockFile }}
+		defer func() { simos.Plan = nil }()
+	}
 	logger := console.NewFromSugared(zap.NewNop().Sugar(), zapcore.ErrorLevel)
 
 	// classify every removal of the lock file by what is being removed (observed through the
@@ -118,6 +126,7 @@ func (w *wlock) Drive(s *simrt.Sched, out *RunResult) {
 	_ = pidOwner
 	var byName map[string]*simrt.Proc
 	decision := map[string]string{} // per process: outcome of its last look at the lock file
+	ownCreate := map[string]bool{}  // per process: its current attempt created the file itself
 	simos.ProbeHook = func(by *simrt.Proc, pid int, alive bool) {
 		if by == nil {
 			return
@@ -140,8 +149,10 @@ func (w *wlock) Drive(s *simrt.Sched, out *RunResult) {
 		switch op {
 		case "open":
 			delete(decision, p.Name) // a new acquisition attempt
+			delete(ownCreate, p.Name)
 			if _, err := os.Lstat(lockFile); err != nil {
 				creator = p.Name // O_CREATE|O_EXCL is about to succeed
+				ownCreate[p.Name] = true
 			}
 		case "readfile":
 			// what the reader is about to see: no file / no valid pid means "stale" without a probe
@@ -173,6 +184,10 @@ func (w *wlock) Drive(s *simrt.Sched, out *RunResult) {
 				basis = "without-a-stale-decision"
 				if decision[p.Name] == "stale" {
 					basis = "after-stale-decision"
+				} else if ownCreate[p.Name] {
+					// the error path of an acquisition whose own exclusive create succeeded (the PID
+					// write failed): it removes "its" file, which a contender may have replaced
+					basis = "cleanup-of-own-create"
 				}
 			}
 			where := "/" + role + "/" + basis
@@ -247,6 +262,12 @@ func (w *wlock) Drive(s *simrt.Sched, out *RunResult) {
 					interrupted[lp.Name] = true
 					mu.Unlock()
 					return // interrupted while waiting: gives up without the lock
+				}
+				if errors.Is(err, syscall.ENOSPC) {
+					mu.Lock()
+					interrupted[lp.Name] = true // the injected write fault: this build gives up without the lock
+					mu.Unlock()
+					return
 				}
 				s.Report(simrt.Violation{Prop: "C10", Class: "lock-error", Signature: "error", Detail: lp.Name + ": Lock returned " + err.Error()})
 				return
